@@ -8,6 +8,9 @@ pub mod c04;
 pub mod c05;
 pub mod c06;
 pub mod c07;
+pub mod c08;
+pub mod c09;
+pub mod c10;
 pub mod c15;
 pub mod c11;
 pub mod c12;
@@ -24,6 +27,9 @@ pub fn run(ctx: &'static Ctx) {
         "C06" => c06::run(ctx),
         "C07" => c07::run(ctx),
         "C15" => c15::run(ctx),
+        "C08" => c08::run(ctx),
+        "C09" => c09::run(ctx),
+        "C10" => c10::run(ctx),
         "C11" => c11::run(ctx),
         "C12" => c12::run(ctx),
         "C13" => c13::run(ctx),
@@ -59,6 +65,9 @@ pub fn replay(prop: &str, case: &Value) -> Verdict {
         "C06" => c06::replay(case),
         "C07" => c07::replay(case),
         "C15" => c15::replay(case),
+        "C08" => c08::replay(case),
+        "C09" => c09::replay(case),
+        "C10" => c10::replay(case),
         "C11" => c11::replay(case),
         "C12" => c12::replay(case),
         "C13" => c13::replay(case),
